@@ -177,16 +177,32 @@ def opDateEnc (cal : Bool) (args : List SExp) : Option OpResult := do
     pure ⟨if inRange t.unix then out else "?range", fun got => if !inRange t.unix || got = out then [] else [("C16", if cal then "caldate-encode" else "httpdate-encode")]⟩
   | _ => none
 
+/-- `time.Parse` accepts (when parsing only) a fractional second — a period or comma followed by digits — right after
+    the seconds field even if the layout has none: the text without that part -/
+def stripFrac (s : List Char) : Option (List Char) :=
+  match s.reverse with
+  | 'Z' :: rest =>
+    let ds := rest.takeWhile Char.isDigit
+    (match rest.drop ds.length with
+     | c :: before => if (c = '.' || c = ',') && !ds.isEmpty then some (before.reverse ++ ['Z']) else none
+     | [] => none)
+  | _ => none
+
 def opDateDec (cal : Bool) (args : List SExp) : Option OpResult := do
   match args with
   | [s] =>
     let s ← s.str?
     let r := if cal then Time.parseCal s.toList else Time.parseHttp s.toList
     let impl := match r with | some v => s!"ok {v}" | none => "?rej"
-    -- a text of the strict grammar must decode to its value; texts outside it are the Go library's business
+    -- a text of the strict grammar must decode to its value.  HTTP dates: texts outside the IMF-fixdate grammar are
+    -- http.ParseTime's business (it also reads RFC 850 and asctime forms).  iCalendar UTC date-times have ONE form:
+    -- anything else must be refused (C16 "reject what they cannot represent"), except time.Parse's fractional second
     pure ⟨impl, fun got => match r with
       | some v => if inRange v then mustEqual "C16" (if cal then "caldate-decode" else "httpdate-decode") s!"ok {v}" got else []
-      | none => []⟩
+      | none =>
+        if !cal then [] else
+        let frac := match stripFrac s.toList with | some t => (Time.parseCal t).isSome | none => false
+        if frac || got = "err" then [] else [("C16", "caldate-accepts-text-outside-the-grammar")]⟩
   | _ => none
 
 def opDateRt (cal : Bool) (args : List SExp) : Option OpResult := do
